@@ -116,7 +116,7 @@ RULES = {
     "C20": "case = (1-2 realms x 1-3 fake KDCs on TCP+UDP with behaviour reply / reply-and-keep-open / partial / close / silent / refuse, request realm absent / configured / other configured / unknown, Kerberos payload 0 B - 128 KiB, malformed request kinds); "
            "non-trivial = a well-formed request for a configured realm, or a malformed one that passes the method/length checks",
     "C14": "case = (user database of 1-5 users incl. empty passwords, duplicates and names differing only in case; sequence of 1-10 operations negotiate / authenticate(session, named user, key user, key password, domain, challenge source) / replay / garbage / bad base64 over 4 sessions); "
-           "type-3 messages are built by the harness's own NTLMv2 implementation; non-trivial = a second attempt in a session, a proof keyed for another user, a foreign or stale challenge, or a replay",
+           "type-3 messages are built by the harness's own NTLMv2 implementation; non-trivial = a second attempt in a session, a proof keyed for another user, a foreign or stale challenge, or a replay; C14_CONC: 2-4 authenticate messages built from one challenge (named user / key user drawn independently, 0-2500 KiB of ignored trailing bytes, start offsets) released together, 4-24 rounds, non-trivial = one of them is keyed for another user than it names",
     "C15": "case = (key mode, user name, 1-4 requests: a member of the token family around a minted token - single-character/bit mutations of each of the five JWE segments, other keys/enc/alg/issuer, expiry offsets, the other mode's token, plain JWS, garbage - with method and parameter variations); "
            "verdict from an independent A128CBC-HS256/dir (+DEF) decryption; non-trivial = the token is not pure garbage",
     "C19": "cases = (a) maps of integer and string settings, (b) assignments of values to the RdpSettings fields by reflection, (c) templates rendered from such assignments with blank lines, comments and the b type letter, run through the download handler, "
